@@ -13,6 +13,16 @@ CHECKS = {
             "Every list program up to 6 operands over {;,&&,||}x{0,1} is executed by the real binary and judged; random longer programs with decoys/probes/other codes sampled. Held = held on the executions observed.",
             "trusts the helper binary's atomic O_APPEND logging and the 6-line reference evaluator taken from the statement",
             "DESIGN.md 3 C03"),
+    "C02": ("exploration",
+            "runtime monitoring: instrumented pipeline stages (start/end records, byte counts, FNV hashes), shell snapshot by the follow-up command; offline checker for exactly-once, per-link conservation, ordering, leftover children, status; /proc deadlock diagnosis under a watchdog",
+            "All finishing orders for n<=4 stages are forced and observed with payloads up to 1 MiB; exit codes, signals and non-reading/failing stages in every position sampled. Held = held on the executions observed.",
+            "trusts the stage helpers' byte counting/hashing; a hang is a violation only with a /proc deadlock diagnosis",
+            "DESIGN.md 3 C02"),
+    "C04": ("exploration",
+            "runtime monitoring: observer command records stdin bytes and writes marked lines to fd 1/2; follow-up observers record status, descriptor identity and the shell's fd table; oracle = reference model of open file descriptions; failing cases are shrunk before classification",
+            "Random redirection lists (<=4 of 11 operator spellings) x external/builtin x 4 pipeline positions x target states are executed and compared with a reference model of open file descriptions.",
+            "trusts the POSIX open-file-description model in lib/c04.py; nothing demanded of a failing command's own targets",
+            "DESIGN.md 3 C04"),
 }
 
 NOT_YET = "check not built yet (work in progress); runtime monitoring is applicable and planned, see DESIGN.md section 3"
